@@ -71,6 +71,8 @@ func runInjector(mode, dir, path string) (output string, err error) {
 		cmd = exec.Command(pgv, "-d", dir)
 	case "cli-p":
 		cmd = exec.Command(pgv, "-p", filepath.Join(dir, "*.go"))
+	case "cli-p-glob": // path is a glob relative to dir
+		cmd = exec.Command(pgv, "-p", filepath.Join(dir, path))
 	default:
 		return "", fmt.Errorf("bad mode %s", mode)
 	}
